@@ -9,7 +9,8 @@ args = sys.argv[1:]
 J = 4
 if args[:1] == ["-j"]:
     J = int(args[1]); args = args[2:]
-seeds = sorted(d for d in glob.glob(os.path.join(ROOT, "seeded", "C*-*")) if not args or os.path.basename(d)[:3] in args)
+SEED_DIR = os.environ.get("SEED_DIR", os.path.join(ROOT, "seeded"))
+seeds = sorted(d for d in glob.glob(os.path.join(SEED_DIR, "C*-*")) if not args or os.path.basename(d)[:3] in args)
 def sh(cmd, **k):
     return subprocess.run(cmd, shell=True, text=True, capture_output=True, **k)
 repo_head = sh("git -C /repo rev-parse --short HEAD").stdout.strip()
